@@ -1,4 +1,5 @@
 """Base class of the pipeline-sim checks."""
+import os
 import random as _pyrandom
 
 from sim import core, pipeline
@@ -85,7 +86,22 @@ class PipelineCheck:
         obs = self.observer(sim, plan)
         run = pipeline.PipelineRun(sim, plan['config'], obs, translate=self.TRANSLATE)
         self.before_run(run, sim, plan)
+        if os.environ.get('VERIF_DEBUG_HOOK'):
+            # triage aid: a python file executed before the run (instrument, print)
+            exec(open(os.environ['VERIF_DEBUG_HOOK']).read(),
+                 {'sim': sim, 'run': run, 'plan': plan, 'check': self})
         run.run()
+        if os.environ.get('VERIF_DUMP_TEXT') and run.program is not None:
+            # debugging aid for replays: the final program's text, off the tape
+            from src import utils as _u
+            with sim.rand.paused():
+                try:
+                    t = _u.translate_program(pipeline.translators()[run.language](
+                        'src.pkg', {}), run.program)
+                except Exception as e:   # noqa
+                    t = 'translation failed: %r' % (e,)
+            with open(os.environ['VERIF_DUMP_TEXT'], 'w') as f:
+                f.write(t)
         try:
             violations, extra = self.judge(run, obs, sim, plan)
         except core.SimBudget:
